@@ -14,7 +14,7 @@
     [wf_trials]: see Properties/C16.v. *)
 From Coq Require Import ZArith List Bool Arith.
 From SP Require Import Design.Flat Design.Sem Front.Trials Front.TrialsWf Front.TrialsProofs Front.Create
-  Front.NestProofs Front.NestSem.
+  Front.NestProofs Front.NestSem Front.NestSem2.
 Import ListNotations.
 
 (** What Nest(outer, inner, cs) builds: the crossings of both blocks side by side, the
@@ -130,6 +130,61 @@ Example C25_example_groups_constraint :
           [[Some 1; Some 1; Some 1; Some 1; Some 0; Some 0; Some 0; Some 0];
            [Some 1; Some 0; Some 1; Some 0; Some 0; Some 1; Some 0; Some 1]] = true.
 Proof. exact ex_nestable_c. Qed.
+
+(** Wider guards (Front/NestSem2.v).  [nest_sem2 So Si] is the normal form of the Nest for every kind of
+    factor and constraint of the reference semantics: the dependencies of inner derived factors are
+    renumbered, the outer block's constraints are carried along scaled the way the documentation-side form
+    scales them (c25.py compares it with docsem's form of the Nest, layer L1-nestsem2); under [nestable_b]
+    it is [nest_sem].  [groups_spec2] is [groups_spec] with
+      - "every outer factor has one of its levels at every trial" widened to derived factors: the outer
+        rows sampled at any offset [j] of the groups ([reps_at], [reps] is offset 0) meet the outer block's
+        factor conditions [factor_ok] - level range and, for a derived factor, the level its table gives for
+        the levels of its dependencies at that trial; offset 0 suffices for a crossed factor;
+      - (d) the group representatives satisfy the outer block's constraints on crossed factors, a run-length
+        bound [k] read as [k / Ti] groups; constraints on uncrossed outer factors are read on the whole sequence;
+      - (c) as before: each group is a valid sequence of the inner block - now including the inner block's
+        derived factors, computed per trial inside the group.
+    [groups2_b] decides [groups_spec2]; the harness evaluates both sides of the theorems on every sequence
+    the real generator returns for a Nest inside a guard. *)
+Theorem C25_nest_sem2_old :
+  forall So Si, nestable_b So Si = true -> nest_sem2 So Si = nest_sem So Si.
+Proof. exact nest_sem2_old. Qed.
+Print Assumptions C25_nest_sem2_old.
+
+Theorem C25_groups2_decided :
+  forall So Si s, groups2_b So Si s = true <-> groups_spec2 So Si s.
+Proof. exact groups2_b_spec. Qed.
+Print Assumptions C25_groups2_decided.
+
+(** Guard 1, [nestable_d_b]: as [nestable_b], but a factor of either block may also be a within-trial
+    derived factor (window width 1, stride 1, applied from the first trial) over factors of its own block. *)
+Theorem C25_nest_groups_derived :
+  forall So Si s,
+    nestable_d_b So Si = true ->
+    (valid_b (nest_sem2 So Si) s = true <-> groups_spec2 So Si s).
+Proof. exact nest_groups_d. Qed.
+Print Assumptions C25_nest_groups_derived.
+
+Theorem C25_nestable_d_includes :
+  forall So Si, nestable_b So Si = true -> nestable_d_b So Si = true.
+Proof. exact nestable_d_includes. Qed.
+Print Assumptions C25_nestable_d_includes.
+
+(** Nest(CrossBlock([A, C, wAC], [A], []), CrossBlock([B, D, wBD], [B], [])) with wAC = same(A, C),
+    wBD = same(B, D): outside [nestable_b], inside [nestable_d_b]; a valid sequence, its samplings and
+    second group, and an invalid one (wrong derived level in the second group). *)
+Example C25_example_groups_derived :
+  nestable_b ex_outer_d ex_inner_d = false /\ nestable_d_b ex_outer_d ex_inner_d = true /\
+  s_trials (nest_sem2 ex_outer_d ex_inner_d) = 4 /\
+  map fdeps (s_factors (nest_sem2 ex_outer_d ex_inner_d)) = [[]; []; [0; 1]; []; []; [3; 4]] /\
+  valid_b (nest_sem2 ex_outer_d ex_inner_d) ex_seq_d = true /\
+  reps_at 3 2 2 0 ex_seq_d = [[Some 0; Some 1]; [Some 0; Some 1]; [Some 0; Some 0]] /\
+  reps_at 3 2 2 1 ex_seq_d = [[Some 0; Some 1]; [Some 1; Some 0]; [Some 1; Some 1]] /\
+  grp 3 2 1 ex_seq_d = [[Some 1; Some 0]; [Some 1; Some 1]; [Some 0; Some 1]] /\
+  valid_b (nest_sem2 ex_outer_d ex_inner_d)
+          [[Some 0; Some 0; Some 1; Some 1]; [Some 0; Some 1; Some 1; Some 0]; [Some 0; Some 1; Some 0; Some 1];
+           [Some 0; Some 1; Some 1; Some 0]; [Some 0; Some 0; Some 1; Some 1]; [Some 0; Some 1; Some 0; Some 0]] = false.
+Proof. exact ex_nestable_d. Qed.
 
 (** Outside the guard (derived factors, outer or other kinds of constraints, preamble trials, nested
     Nests, inner crossings with a partial last chunk - where the property fails on the real code,
